@@ -93,7 +93,7 @@ func valKind(v Val) string {
 }
 
 func checkC10(c *Ctx) {
-	c.rule = "API driver: every receiver of a 51-value pool (all value types incl. objects, types, library functions, exception, Go value) x every member name extracted from the working tree (+unknown names) x {get, set, call, new, fn, str, dup, twin (continue on the copy), cmp, json} x argument tuples (arity 0..1 exhaustive over a 32-value boundary pool, arity 2 exhaustive in thorough, arity 2..4 random; for list / dictionary / text receivers additionally every position and position pair in [-2, length+2]), applied as step sequences on one receiver; plus scripted histories that copy a list / dictionary of 0..9 elements and alternate insertions and removals between the value and its copy, displaying both. Program driver: one- and two-statement Zn programs applying every operator / index / member / call / new / throw / loop form to input variables drawn from the same pools; plus user methods / type methods whose body ends in each of 25 failures (with no handler, a handler without and with 输出) whose call is placed in each of 26 consumer positions. Whole-program driver: programs made of definitions / comments / imports only and programs yielding each kind of value, through Execute and through the playground HTTP handler; runaway recursion (plain, mutual, through a type method, through a constructor) without a logical budget. Input-variable driver: texts without any statement (line breaks, comments, imports only), every right-hand-side kind, failing and ill-formed texts through ExecVarInputText. Violation = recovered Go panic, nil element without error, worker exit, or hang. distinct_nontrivial = distinct (receiver kind, step kind, member, arg kinds, outcome kind)"
+	c.rule = "API driver: every receiver of a 51-value pool (all value types incl. objects, types, library functions, exception, Go value) x every member name extracted from the working tree (+unknown names) x {get, set, call, new, fn, str, dup, twin (continue on the copy), cmp, json} x argument tuples (arity 0..1 exhaustive over a 32-value boundary pool, arity 2 exhaustive in thorough, arity 2..4 random; for list / dictionary / text receivers additionally every position and position pair in [-2, length+2]), applied as step sequences on one receiver; plus scripted histories that copy a list / dictionary of 0..9 elements and alternate insertions and removals between the value and its copy, displaying both. Program driver: one- and two-statement Zn programs applying every operator / index / member / call / new / throw / loop form to input variables drawn from the same pools; plus user methods / type methods whose body ends in each of 25 failures (with no handler, a handler without and with 输出) whose call is placed in each of 26 consumer positions. Whole-program driver: programs made of definitions / comments / imports only and programs yielding each kind of value, through Execute and through the playground HTTP handler; runaway recursion (plain, mutual, through a type method, through a constructor) without a logical budget. Input-variable driver: texts without any statement (line breaks, comments, imports only), every right-hand-side kind, failing and ill-formed texts through ExecVarInputText. Host driver: 21 programs served by ZnHttpHandler that answer with an HTTP响应 object whose 头部 / 状态码 / 内容 have the wrong type or whose status is 0, negative, fractional, 99, 1000, 1e19, infinite or NaN. Violation = recovered Go panic, nil element without error, worker exit, or hang. distinct_nontrivial = distinct (receiver kind, step kind, member, arg kinds, outcome kind)"
 	c.assumptions = []string{"library functions run inside the worker's private scratch directory", "member tables are read from /repo sources at check time by a string-literal scan"}
 	rng := c.Rand("c10")
 	members := memberNames()
@@ -525,6 +525,32 @@ func checkC10(c *Ctx) {
 				map[string]interface{}{"req": req})
 		}
 	})
+	// ---------------------------------------------------------------- the host that serves a program
+	// a program served by ZnHttpHandler hands back an HTTP响应 object whose parts have the wrong
+	// type, or a status no response can carry: the handler must answer, not panic (in the
+	// prefork worker a panic in the handler goroutine ends the process)
+	if bin, err := buildTool(c, "./srvharness", "srvharness", false); err != nil {
+		c.Inconclusive(err.Error())
+	} else if sum, _, _, err := runHarness(c, bin, "badresp", 1, 1, c.Seed, "badresp"); err != nil {
+		c.Inconclusive("badresp: " + err.Error())
+	} else {
+		c.Count("malformed_http_responses_served", int64(sum.Requests))
+		for _, sm := range sum.Samples {
+			c.Nontrivial("badresp|" + sm)
+		}
+		if sum.Requests < 15 {
+			c.Inconclusive("badresp: too few requests served")
+		}
+		if sum.Errors > 0 || sum.Crossed > 0 {
+			bad := []string{}
+			for _, sm := range sum.Samples {
+				if strings.Contains(sm, "panicked") {
+					bad = append(bad, sm)
+				}
+			}
+			c.Violation("host:http-response", fmt.Sprintf("ZnHttpHandler panicked while answering %d of %d programs that return a malformed HTTP响应 (control well-formed response wrong: %d):\n%s", sum.Errors, sum.Requests, sum.Crossed, clip(strings.Join(bad, "\n"), 1500)), map[string]interface{}{"scenario": "srvharness -mode badresp"})
+		}
+	}
 }
 
 // c10NestedRecursion: a method that calls itself for ever, the call sitting inside n nested
